@@ -144,7 +144,7 @@ Definition bin_op (n : node) : option string :=
 (** [replace_expressions_in_expr] with [ExpandArrays::No]. *)
 Definition replace_expr_noexpand (c : config) (e : node) (im : ident_mode) (span : sp)
            (ik : ident_kind) (a : acc) (p : pstate) : node * acc * pstate :=
-  if is_lit e then (e, push_arg (mk_arg e) a, p)
+  if is_lit e then (e, push_arg (expr_or_spread e ik) a, p)
   else if is_ident e then
     match im with
     | Replace => replace_default c e span ik a p
